@@ -303,3 +303,53 @@ Definition ev_sb (evs : list tev) (out : res info) : bool :=
 
 Definition ev_sb_why (evs : list tev) (out : res info) : list N :=
   if no_overflow (all_ops evs) then tally_sb_why (ops_since_clear evs) out else [].
+
+(** * Outside the guard (release build): what the machine arithmetic yields *)
+
+(** Bytes a reallocation contributes once the size change no longer fits an
+    isize: [wrapping_abs] of the wrapped difference, i.e. [|new - old|] up to
+    2^63 and [2^64 - |new - old|] beyond. *)
+Definition op_bytes_m (o : aop) : N :=
+  match o with
+  | OAlloc s => s
+  | ODealloc s => s
+  | ORealloc a b =>
+      let d := (if b <? a then a - b else b - a)%N in
+      if (d <=? 9223372036854775808)%N then d else (two64N - d)%N
+  end.
+
+Definition spec_bytes_m (k : opk) (ops : list aop) : N := sumN (map op_bytes_m (ops_of_kind k ops)).
+
+(** Every reallocation changes the size by at most 2^63 (true of all requests
+    that respect [Layout]'s [size <= isize::MAX]). *)
+Definition realloc_small (o : aop) : bool :=
+  match o with
+  | ORealloc a b => ((if b <? a then a - b else b - a) <=? 9223372036854775808)%N
+  | _ => true
+  end.
+
+(** [Sb] for a release build without any guard on the sequence (operands are
+    usize): no panic, rows modulo 2^64, current figures wrapped. *)
+Definition release_sb_clauses (ops : list aop) (i : info) : list (bool * N) :=
+  [ (tally_eqb (i_grow i) (spec_count KGrow ops mod two64N) (spec_bytes_m KGrow ops mod two64N), 1%N);
+    (tally_eqb (i_shrink i) (spec_count KShrink ops mod two64N) (spec_bytes_m KShrink ops mod two64N), 2%N);
+    (tally_eqb (i_alloc i) (spec_count KAlloc ops mod two64N) (spec_bytes_m KAlloc ops mod two64N), 3%N);
+    (tally_eqb (i_dealloc i) (spec_count KDealloc ops mod two64N) (spec_bytes_m KDealloc ops mod two64N), 4%N);
+    ((i_cur_count i =? wrap_i64 (live_count ops))%Z, 5%N);
+    ((i_cur_size i =? wrap_i64 (live_size ops))%Z, 7%N) ].
+
+Definition release_sb (ops : list aop) (out : res info) : bool :=
+  if forallb op_wf ops then
+    match out with
+    | Ok i => forallb fst (release_sb_clauses ops i)
+    | Panic _ => false
+    end
+  else true.
+
+Definition release_sb_why (ops : list aop) (out : res info) : list N :=
+  if forallb op_wf ops then
+    match out with
+    | Ok i => failing_clauses (release_sb_clauses ops i)
+    | Panic _ => [0%N]
+    end
+  else [].
